@@ -75,3 +75,23 @@ def bound_text(tier, kinds_q, kinds_t=None):
         d = ("1 layout deviation: (" + ",".join(kinds_t or kinds_q) + ") at every position of S_q (211 seeds, no length limit); (" + ",".join(w) + ") at every line of every fix/cls seed")
         k = "1 configuration deviation (every documented option value) of each rule on its own fixture"
     return z + "; " + d + "; " + k
+
+
+def k2_items(tier, skip=True, indent=True):
+    """K2: single deviations of the top-level configuration keys that steer the pipeline itself: skip_phase (each single phase)
+    and the documented indent options of use clauses (docs/configuring_use_clause_indenting.rst), on seeds where they matter"""
+    from .. import corpus
+
+    out = []
+    fixs = corpus.seed_ids(("fix", "cls"))
+    if skip:
+        for s in (fixs[::3] if tier == "quick" else fixs):
+            for ph in range(1, 7):
+                out.append(universe.mk(s, (), None, {"skip_phase": [ph]}, cfgname=f"skip_phase={ph}"))
+    if indent:
+        users = [s for s in corpus.seed_ids(("fix", "cls", "big")) if any(l.strip().lower().startswith("use ") for l in corpus.lines_of(s))]
+        for s in (users[::2] if tier == "quick" else users):
+            for opt in ("token_if_no_matching_library_clause", "token_after_library_clause"):
+                for val in ("current", "+2"):
+                    out.append(universe.mk(s, (), None, {"indent": {"tokens": {"use_clause": {"keyword": {opt: val}}}}}, cfgname=f"indent.use_clause.{opt}={val}"))
+    return out
